@@ -30,6 +30,7 @@ import (
 	"github.com/avast/retry-go/v4"
 	"github.com/nuts-foundation/go-stoabs"
 	"github.com/nuts-foundation/nuts-node/core"
+	"github.com/nuts-foundation/nuts-node/core/verifhook"
 	"github.com/nuts-foundation/nuts-node/crypto/hash"
 	"github.com/nuts-foundation/nuts-node/network/log"
 	"github.com/prometheus/client_golang/prometheus"
@@ -433,7 +434,9 @@ func (p *notifier) notifyNow(event Event) error {
 		}
 	}
 
+	verifhook.Point("dag.notify.receiver", p.name, dbEvent.Hash, dbEvent.Type, dbEvent.Retries)
 	finished, err := p.receiver(*dbEvent)
+	verifhook.Point("dag.notify.returned", p.name, dbEvent.Hash, dbEvent.Type, finished, err)
 	if err != nil {
 		if errors.As(err, new(EventFatal)) {
 			// mark as failed event
@@ -470,6 +473,7 @@ func (p *notifier) notifyNow(event Event) error {
 		}
 	}
 
+	verifhook.Point("dag.notify.recorded", p.name, dbEvent.Hash, dbEvent.Type, dbEvent.Retries)
 	// has to return an error since `retry.Do` needs to retry until it's marked as finished
 	return err
 }
@@ -498,6 +502,7 @@ func (p *notifier) readEvent(reader stoabs.Reader, hash hash.SHA256Hash) (*Event
 }
 
 func (p *notifier) Finished(hash hash.SHA256Hash) error {
+	defer verifhook.Point("dag.notify.finished", p.name, hash)
 	p.incFinished()
 	if !p.isPersistent() {
 		return nil
